@@ -1436,6 +1436,17 @@ def rule_r10(chk, p, t, rid="C04.R10", parts=("forward", "inverse", "measurement
             r.guard(f"{MEAS}.{nm}", f)
 
 
+def rule_r11(chk, p, t, rid="C04.R11"):
+    from rules.shared_memo import memo_rule
+
+    memo_rule(
+        chk, p, t, rid,
+        modules=("resonaate.physics.transforms", "resonaate.physics.time", "resonaate.physics.maths"),
+        floor=60,
+        what="the frame / time conversion modules (physics.transforms, physics.time, physics.maths)",
+    )
+
+
 def run(chk, p, t):
     chk.explanation = (
         "Static decision of structural necessary conditions of C04 by normal forms of rotation chains and matrix "
@@ -1447,7 +1458,7 @@ def run(chk, p, t):
         "geodetic closed form."
     )
     chk.assumptions += ["numpy matmul / dot / multi_dot are matrix products; .T is the transpose", "passive rotation convention of Vallado eq. 3-15 (cited by the module)"]
-    for fn in (rule_r1, rule_r2, rule_r3, rule_r4, rule_r5, rule_r6, rule_r7, rule_r8, rule_r9, rule_r10):
+    for fn in (rule_r1, rule_r2, rule_r3, rule_r4, rule_r5, rule_r6, rule_r7, rule_r8, rule_r9, rule_r10, rule_r11):
         rid = "C04.R" + fn.__name__.split("_r")[-1]
         if not chk.wants(rid):
             continue
